@@ -386,7 +386,7 @@ def _safe(s):
     return re.sub(r"[^A-Za-z0-9_.=-]+", "_", s)[:120]
 
 
-def finish(ctx: Ctx):
+def finish(ctx: Ctx, replay=False):
     wall = time.time() - ctx.t0
     # replay files for new violations
     lines = []
@@ -427,9 +427,10 @@ def finish(ctx: Ctx):
         "wall_s": round(wall, 2),
         "violations": len(ctx.violations),
     }
-    os.makedirs(os.path.join(outroot, "evidence"), exist_ok=True)
-    with open(os.path.join(outroot, "evidence", f"{ctx.pid}.json"), "w") as f:
-        json.dump(ev, f, indent=1, ensure_ascii=False, default=repr)
+    if not replay:  # a replay of one saved case is not a run of the check: it never overwrites the evidence
+        os.makedirs(os.path.join(outroot, "evidence"), exist_ok=True)
+        with open(os.path.join(outroot, "evidence", f"{ctx.pid}.json"), "w") as f:
+            json.dump(ev, f, indent=1, ensure_ascii=False, default=repr)
     for ln in known_lines:
         print(ln)
     for ln in lines:
@@ -443,7 +444,9 @@ def finish(ctx: Ctx):
         for k, d in list(ctx.violations.items())[:10]:
             print("  -", k, "::", json.dumps(d, ensure_ascii=False, default=repr)[:400])
         return 1
-    if ctx.evaluations < 1 or nt < 2:
-        print(f"HARNESS-ERROR: vacuous run (evaluations={ctx.evaluations}, nontrivial={nt})")
+    if replay:
+        return 0
+    if ctx.evaluations < 1 or nt < 2 or not ctx.samples:
+        print(f"HARNESS-ERROR: vacuous run (evaluations={ctx.evaluations}, nontrivial={nt}, samples={len(ctx.samples)})")
         return 2
     return 0
